@@ -273,7 +273,8 @@ row(props=["C02"], func=FL + "(JavaFullListener).EnterMethodCall", params=["s", 
 # ------------------------------------------------------------------ third batch (after the second round of seeded changes)
 PARAM = 'param'
 row(props=["C01", "C02"], func=FL + "BuildMethodParameters", params=["parameters"], kind="callarg", callee="pkg/domain/core_domain.NewCodeParameter", arg=0, each={"as": "param"},
-    expr="GetText(TypeType(param))", what="parameter entry: the declared type text")
+    expr='GetText(TypeType(param)) + call("strings.TrimPrefix", GetText(VariableDeclaratorId(param)), GetText(Identifier(VariableDeclaratorId(param))))',
+    what="parameter entry: the declared type, including array brackets written after the name (String args[] is a String[])")
 row(props=["C01", "C02"], func=FL + "BuildMethodParameters", params=["parameters"], kind="callarg", callee="pkg/domain/core_domain.NewCodeParameter", arg=1, each={"as": "param"},
     expr="GetText(Identifier(VariableDeclaratorId(param)))", what="parameter entry: the declared identifier (not the declarator with its brackets)")
 JP = "pkg/infrastructure/jpackage."
